@@ -647,6 +647,11 @@ func (e *env) judge(op Op, o outcome, where string) {
 	}
 	shape := fmt.Sprintf("%s:%s:user=%s:pass=%s:algo=%s", op.Shape, flagsName(op), class(op.Ua), op.Pa, meta.Algo)
 	probe := strings.HasPrefix(where, "probe")
+	if o.Kind == "noconnack" && o.WExit && op.Res == "accept" {
+		// refused (the broker's writer for this connection is gone) and the failing CONNACK lost on top: two findings
+		e.lostConnack(shape, o)
+		o.Kind, o.Code = "reject", 0xff
+	}
 	switch o.Kind {
 	case "other":
 		e.div("c19:"+where+":unexpected-answer:"+o.Detail, fmt.Sprintf("CONNECT (%s) answered by %s", shape, o.Detail), o)
@@ -696,11 +701,6 @@ func (e *env) judge(op Op, o outcome, where string) {
 		rep.Count("noconnack", 1)
 		if op.Res == "accept" {
 			e.resultDiverged = true
-			if (op.Shape == "v5am" || op.Shape == "v5amd") && o.WExit {
-				e.div("c19:valid-credentials-rejected-when-authentication-method-present",
-					"v5 CONNECT with stored user + matching password and an Authentication Method property not accepted, and no CONNACK written at all ("+shape+")", o)
-				return
-			}
 			e.div("c19:"+where+":valid-credentials-no-connack:"+op.Shape, "CONNECT with valid credentials got no CONNACK ("+shape+"): "+o.Detail, o)
 			return
 		}
@@ -708,9 +708,7 @@ func (e *env) judge(op Op, o outcome, where string) {
 		case !wellformed:
 			rep.Count("noconnack:v3-password-flag-without-username-flag(allowed)", 1)
 		case o.WExit:
-			rep.Count("failing_connack_lost", 1)
-			e.div("c19:failing-connack-lost",
-				"rejected CONNECT got no CONNACK: the connection's writer exited without writing it ("+shape+"): "+o.Detail, o)
+			e.lostConnack(shape, o)
 		case o.Closed:
 			// (a broker that reads the password as a UTF-8 string drops passwords with a NUL byte this way)
 			e.div("c19:connection-closed-without-connack:"+flagsName(op)+":user="+class(op.Ua)+":pass="+op.Pa,
@@ -719,6 +717,12 @@ func (e *env) judge(op Op, o outcome, where string) {
 			e.div("c19:connect-unanswered-for-20s", "CONNECT neither answered nor closed ("+shape+")", o)
 		}
 	}
+}
+
+func (e *env) lostConnack(shape string, o outcome) {
+	rep.Count("failing_connack_lost", 1)
+	e.div("c19:failing-connack-lost",
+		"rejected CONNECT got no CONNACK: the connection's writer exited without writing it ("+shape+"): "+o.Detail, o)
 }
 
 func trunc(s string) string {
@@ -1059,6 +1063,11 @@ func (e *env) probes(t *Trans, accounts []UP, where string, full bool) {
 			}
 			// after the shadow restart: the file projection
 			rep.Count("connects", 1)
+			if o.Kind == "noconnack" && o.WExit && op.Res == "accept" {
+				rep.Count("reject_owed_connack", 1)
+				e.lostConnack("probe after restart", o)
+				o.Kind, o.Code = "reject", 0xff
+			}
 			switch {
 			case o.Kind == "accept" && op.Res == "reject":
 				e.div("c19:restarted-broker-accepts-account-not-in-saved-state:pwfile="+meta.Mode+":after-"+t.Op.Op,
@@ -1068,8 +1077,7 @@ func (e *env) probes(t *Trans, accounts []UP, where string, full bool) {
 					fmt.Sprintf("after Stop + start on the same password file (%s path) user %s / password %s is rejected (0x%02x), the specification's file has %v", meta.Mode, u, p, o.Code, accounts), o)
 			case o.Kind == "noconnack" && op.Res == "reject" && o.WExit:
 				rep.Count("reject_owed_connack", 1)
-				rep.Count("failing_connack_lost", 1)
-				e.div("c19:failing-connack-lost", "rejected CONNECT got no CONNACK: "+o.Detail, o)
+				e.lostConnack("probe after restart", o)
 			case o.Kind == "noconnack" || o.Kind == "other":
 				e.div("c19:restart-probe:unexpected:"+o.Kind, fmt.Sprintf("probe %s/%s after restart: %+v", u, p, o), o)
 			default:
